@@ -456,9 +456,10 @@ func (s *stubAcc) GetAssetIdState(common.Hash) (string, error)           { retur
 func (s *stubAcc) GetEquityState(common.Hash) (*types.AssetEquity, error) {
 	return nil, types.ErrEquityNotExist
 }
-func (s *stubAcc) GetCodeHash() common.Hash    { return s.g.hash() }
-func (s *stubAcc) GetStorageRoot() common.Hash { return s.g.hash() }
-func (s *stubAcc) GetSigners() types.Signers   { return s.g.signers(1) }
+func (s *stubAcc) GetCodeHash() common.Hash     { return s.g.hash() }
+func (s *stubAcc) GetStorageRoot() common.Hash  { return s.g.hash() }
+func (s *stubAcc) GetSigners() types.Signers    { return s.g.signers(1) }
+func (s *stubAcc) GetCode() (types.Code, error) { return types.Code(s.g.blob("short")), nil }
 
 type stubProc struct{ a *stubAcc }
 
